@@ -65,7 +65,7 @@ def floors(tier):
   q = tier == 'quick'
   return {'ev:plain_sample_matches_model': 15000 if q else 500000,
           'ev:plain_size_matches_model': 60000 if q else 2000000,
-          'ev:plain_refusal_matches_model': 2500 if q else 100000,
+          'ev:plain_refusal_matches_model': 2500 if q else 40000,
           'ev:plain_drain_matches_model': 10000 if q else 300000,
           'ev:uniform_returns_held_records': 50 if q else 500,
           'ev:uniform_deterministic_in_key': 50 if q else 500,
